@@ -1,11 +1,13 @@
 import Gofasta.Driver.C03
 import Gofasta.Driver.C17
+import Gofasta.Driver.C16
 namespace Gofasta.Driver
 
 def dispatch (c : Case) : Verdict :=
   match c.prop with
   | "C03" => runC03 c
   | "C17" => runC17 c
+  | "C16" => runC16 c
   | _ => { agree := false, spec := "na", model := "unknown-property" }
 
 end Gofasta.Driver
